@@ -227,6 +227,41 @@ def _under_handler(eng, fn, node, cls) -> bool:
     return False
 
 
+def check_no_parse_error_from_callbacks(eng, run):
+    """the parse-error classes are raised by the serializers' own methods, where the incremental entry points convert them
+    (DeserializeError -> IncrementalDeserializeError with the remainder).  A module-level function of a serializer module that is
+    handed around *as a value* (a decoder hook such as json's object_pairs_hook, a default=, a key=) runs inside the third-party
+    decoder: a DeserializeError raised there leaves `decoder.decode()` as it is, un-converted - the stream consumer then sees a bare
+    DeserializeError, reports '... crashed' and loses the remainder."""
+    n = 0
+    for m in eng.db.modules.values():
+        if not m.name.startswith("easynetwork.serializers"):
+            continue
+        as_value = set()
+        for x in ast.walk(m.tree):
+            if isinstance(x, ast.Call):
+                for a in list(x.args) + [k.value for k in x.keywords]:
+                    if isinstance(a, ast.Name) and a.id in m.functions:
+                        as_value.add(a.id)
+            if isinstance(x, (ast.Assign, ast.AnnAssign)) and isinstance(getattr(x, "value", None), ast.Name) and x.value.id in m.functions:
+                as_value.add(x.value.id)
+            if isinstance(x, ast.Dict):
+                for v in x.values:
+                    if isinstance(v, ast.Name) and v.id in m.functions:
+                        as_value.add(v.id)
+        for name in sorted(as_value):
+            fn = m.functions[name]
+            if isinstance(fn.node, ast.Lambda) or fn.is_generator:
+                continue
+            n += 1
+            raises = [r for r in own_nodes(fn.node) if isinstance(r, ast.Raise) and r.exc is not None and any(k in ast.unparse(r.exc) for k in ("DeserializeError", "LimitOverrunError"))]
+            for r in raises[:1]:
+                run.finding("C06.esc", fn, r, f"`{name}()` is handed around as a callback and raises a parse error from inside the code that calls it back (a third-party decoder): the error is not "
+                            "converted by the incremental entry point - the consumer sees a bare DeserializeError instead of IncrementalDeserializeError and the remainder is lost")
+            run.ob("C06.esc", f"{m.name.split('.')[-1]}.{name}:callback-raises-no-parse-error", not raises)
+    run.count("callbacks_checked", n) if hasattr(run, "count") else None
+
+
 def run(eng, run):
     from sa.anchors import verify as _verify_anchor_names
     _verify_anchor_names(eng, run)
@@ -237,6 +272,7 @@ def run(eng, run):
     summ = EscapeSummaries(eng)
     run.attempt(check_escape, eng, run, summ)
     run.attempt(check_conv, eng, run)
+    run.attempt(check_no_parse_error_from_callbacks, eng, run)
     run.attempt(check_inc, eng, run, summ)
     from sa.analyses.arms import check_dead_arms
     run.attempt(check_dead_arms, eng, run, "C06.arms", ("serializers", "protocol", "lowlevel._stream"), 10)
